@@ -33,6 +33,8 @@ def build_par(tsan=False):
 
 def run(tier, seed, replay=None):
     rep = vlib.Report(PROP, tier, seed)
+    import os
+    os.environ["VERIF_TIER_NOW"] = tier
     rep.assumptions = ["the C++ memory model is not modelled: 'atomic step' = a private write of the task's own row, or a watch-list update under the variable's mutex; that the lambda does nothing else is read from the code (and watched by ThreadSanitizer)",
                        "thread schedules are produced by the OS under several CPU affinities; the theorem covers all of them, the runs sample them",
                        "the pool size is std::thread::hardware_concurrency() in the code; it varies here only through the affinity mask"]
